@@ -10,6 +10,7 @@
 #include <atomic>
 #include <chrono>
 #include <condition_variable>
+#include <cstdint>
 #include <exception>
 #include <functional>
 #include <future>
@@ -309,6 +310,7 @@ public:
   void shutdown()
   {
     iora::core::Logger::debug("ThreadPool::shutdown() - Starting explicit shutdown");
+    std::uint64_t myEpoch = 0;
     {
       std::unique_lock<std::mutex> lock(_mutex);
       if (_shutdown)
@@ -318,14 +320,19 @@ public:
         // "shutdown()/stop() returned" means "every accepted task has run" for EVERY
         // caller, not only for the first one.
         iora::core::Logger::debug("ThreadPool::shutdown() - Already shut down");
+        // Wait for THAT shutdown (its number was read under _mutex). Completed numbers only
+        // grow, so a restart (reset() + start()) right after it cannot hide the completion
+        // from this caller, as clearing a boolean latch in start() did.
+        const std::uint64_t epoch = _shutdownEpoch;
         lock.unlock();
-        while (!_shutdownComplete.load(std::memory_order_acquire))
+        while (_shutdownCompleteEpoch.load(std::memory_order_acquire) < epoch)
         {
           std::this_thread::sleep_for(std::chrono::milliseconds(1));
         }
         return;
       }
       _shutdown = true;
+      myEpoch = ++_shutdownEpoch;
     }
     _condition.notify_all();
 
@@ -448,7 +455,7 @@ public:
       }
     }
 
-    _shutdownComplete.store(true, std::memory_order_release);
+    _shutdownCompleteEpoch.store(myEpoch, std::memory_order_release);
     iora::core::Logger::debug("ThreadPool::shutdown() - All " + std::to_string(joinCount) +
                               " threads joined, shutdown complete");
   }
@@ -522,7 +529,6 @@ public:
     {
       std::lock_guard<std::mutex> lock(_mutex);
       _shutdown.store(false, std::memory_order_release);
-      _shutdownComplete.store(false, std::memory_order_release);
     }
 
     _accepting.store(true, std::memory_order_release);
@@ -1010,6 +1016,7 @@ private:
         return result;
       }
       _shutdown = true;
+      ++_shutdownEpoch;
     }
 
     _condition.notify_all();
@@ -1210,7 +1217,8 @@ private:
   bool _workerScaling { true };
 
   std::atomic<bool> _shutdown;
-  std::atomic<bool> _shutdownComplete{false}; // the shutdown() that set _shutdown has joined every worker
+  std::uint64_t _shutdownEpoch{0}; // number of the shutdown that last set _shutdown (guarded by _mutex)
+  std::atomic<std::uint64_t> _shutdownCompleteEpoch{0}; // number of the last shutdown() that has joined every worker
   std::atomic<std::size_t> _activeThreads; // Threads actively executing tasks
   std::atomic<std::size_t> _busyThreads;   // Threads that have picked up work
 
